@@ -25,6 +25,10 @@ deduplicated by canonical state.  After every step, for EVERY live metamodel k
        is an IntegerGenerator (ids drawn from a UUIDGenerator are random: in the generator family they are
        replaced by place-holders numbered by first occurrence before texts and snapshots are compared).
 
+Route family: the texts arrive through files (filename_input under several spellings of one path, file_input, input)
+and the file is rewritten between the calls; split family: classes, association and rows arrive in separate chunks
+in any order with builds (also refused ones) in between.  Same oracles.
+
 Identity facts (which attribute lists, key lists, index dictionaries, metaclasses, instances are the same
 object in two metamodels or in a loader statement) are part of the canonical state as the
 implementation-only component; they are recorded, not judged.
@@ -45,6 +49,14 @@ ASSUMPTIONS = [
     'generator family: the same search with the k-th successful build given an explicit IntegerGenerator or no generator '
     'argument, for every pattern other than all-explicit, to depth 4 (quick) / 5 (thorough); ids >= 2^64 (drawn from a '
     'UUIDGenerator) are compared by their pattern of equality only',
+    'route family: one file (first holding the first chunk of rows) rewritten with any of the four chunks between input calls; '
+    'input through filename_input under three spellings of its path (absolute, symbolic link, relative), file_input and input '
+    'of the same text; at most 3 (quick) / 4 (thorough) accepted inputs, one rejected; two live metamodels; mutations new / '
+    'delete / relate; depth 5 / 6. The replica is a fresh loader given the texts the file held at each accepted call, '
+    'through input()',
+    'split family: the schema of the main search in separate chunks (class A + identifier, class B, the association, rows), each '
+    'at most once in any order, builds in between -- builds the library refuses (association before its class) included, at '
+    'most two per history, counted in the canonical state; mutations delete / relate / unrelate; depth 6 / 7',
     'sharing of immutable or never-mutated objects (key lists of associations, identifier tuples) is not a violation: no '
     'operation of the statement can change them; it is recorded in the canonical state only',
 ]
@@ -236,6 +248,10 @@ def first_diff(a, b):
 
 class LoaderModel(explorer.Model):
     limit_s = 20.0
+    family = None          # None: main search / generator family
+    prefix = ''            # family part of the signatures
+    mut_names = None       # None: every mutation of the menu
+    bad = BAD              # index of the chunk that is rejected
 
     def __init__(self, tier, seed=0, max_mm=None, cap_new=None, gens=None):
         # gens[k]: 'explicit' = the k-th successful build is given its own IntegerGenerator, 'default' = no generator
@@ -253,6 +269,8 @@ class LoaderModel(explorer.Model):
         c = dict(hist=hist, op=op, tier=self.tier, seed=self.seed, max_mm=self.max_mm, cap_new=self.cap_new)
         if self.gens:
             c['gens'] = self.gens
+        if self.family:
+            c['family'] = self.family
         return c
 
     def gen_mode(self, w):
@@ -278,7 +296,7 @@ class LoaderModel(explorer.Model):
         '''Apply op to the implementation and to the reference; returns (got, expected).'''
         import xtuml
         if op[0] == 'input':
-            exp = 'ParsingException' if op[1] == BAD else 'ok'
+            exp = 'ParsingException' if op[1] == self.bad else 'ok'
             try:
                 w.loader.input(self.chunks[op[1]])
                 got = 'ok'
@@ -318,6 +336,11 @@ class LoaderModel(explorer.Model):
     def enabled(self, w):
         p = self.p
         A, B, Z = p['A'], p['B'], p['Z']
+        ops = self.input_ops(w)
+        ops += [o for o in self.mut_ops(w) if self.mut_names is None or o[2] in self.mut_names]
+        return ops
+
+    def input_ops(self, w):
         ops = []
         for i in range(len(self.chunks)):
             if i == BAD:
@@ -327,6 +350,12 @@ class LoaderModel(explorer.Model):
                 ops.append(['input', i])
         if len(w.mms) < self.max_mm:
             ops.append(['build'])
+        return ops
+
+    def mut_ops(self, w):
+        p = self.p
+        A, B, Z = p['A'], p['B'], p['Z']
+        ops = []
         for k, e in enumerate(w.mms):
             r = e.replica
             mca, mcb = r.metaclasses.get(A.upper()), r.metaclasses.get(B.upper())
@@ -430,7 +459,7 @@ class LoaderModel(explorer.Model):
         case = self.case(hist, op)
 
         def bad(kind, msg, exp=None, got=None):
-            ctx.violation('c18:%s:%s' % (name, kind), case, 'history %s, then %s: %s' % (json.dumps(hist), json.dumps(op), msg),
+            ctx.violation('c18:%s%s:%s' % (self.prefix, name, kind), case, 'history %s, then %s: %s' % (json.dumps(hist), json.dumps(op), msg),
                           exp, got, unit_test=unit_test(self, hist, op))
         before = [self.obs(xtuml, e.m) for e in w.mms]
         peek_before = [e.m.id_generator.peek() for e in w.mms]
@@ -514,7 +543,24 @@ def unit_test(model, hist, op):
              'def pool(mm, kind): return list(mm.select_many(kind))']
     nbuilt = [0]      # (rejected builds do not occur in reported histories of the generator family's patterns)
 
+    if model.family == 'routes':
+        lines += ['import os, tempfile', "path = os.path.join(tempfile.mkdtemp(), 'data.sql')",
+                  "link = os.path.join(os.path.dirname(path), 'same.sql'); os.symlink(path, link)",
+                  'spellings = dict(abs=path, link=link, rel=os.path.relpath(path))',
+                  "def write(i):\n    with open(path, 'w') as f: f.write(chunks[i])\n    return i",
+                  'content = write(1)']
+
     def stmt(o):
+        if o[0] == 'write':
+            return 'content = write(%d)' % o[1]
+        if o[0] == 'filename_input':
+            return 'try: l.filename_input(spellings[%r])\nexcept xtuml.ParsingException: pass' % o[1]
+        if o[0] == 'file_input':
+            return 'try: l.file_input(open(path))\nexcept xtuml.ParsingException: pass'
+        if o[0] == 'text_input':
+            return 'try: l.input(chunks[content])\nexcept xtuml.ParsingException: pass'
+        if o[0] == 'build' and model.family:
+            return 'try: m.append(l.build_metamodel(xtuml.IntegerGenerator()))\nexcept xtuml.MetaException as e: print(type(e))'
         if o[0] == 'input':
             return 'try: l.input(chunks[%d])\nexcept xtuml.ParsingException: pass' % o[1]
         if o[0] == 'build':
@@ -553,6 +599,151 @@ def unit_test(model, hist, op):
     return '\n'.join(lines)
 
 
+# ---------------------------------------------------------------------------------------------------------------------
+# route family: the same texts given through files -- filename_input under several spellings of one path (absolute,
+# through a symbolic link, relative), file_input, input -- with the file REWRITTEN between input calls
+# ---------------------------------------------------------------------------------------------------------------------
+ROUTE_ALIASES = ['abs', 'link', 'rel']
+ROUTE_MAX_INPUTS = {'quick': 3, 'thorough': 4}
+ROUTE_DEPTH = {'quick': 5, 'thorough': 6}
+ROUTE_MUTS = ('new', 'delete', 'relate')
+_route_worlds = 0
+
+
+class RouteModel(LoaderModel):
+    family = 'routes'
+    prefix = 'routes:'
+    mut_names = ROUTE_MUTS
+
+    def __init__(self, tier, seed=0):
+        LoaderModel.__init__(self, tier, seed, max_mm=2, cap_new=1)
+        self.max_inputs = ROUTE_MAX_INPUTS[tier]
+
+    def build(self, hist):
+        import os
+        import shutil
+        from mc import bootstrap
+        # a directory of its own for every world: nothing that remembers paths can carry over from one history to another
+        global _route_worlds
+        _route_worlds += 1
+        top = os.path.join(bootstrap.tmpdir(), 'c18-routes-%d' % os.getpid())
+        d = os.path.join(top, 'w%d' % _route_worlds)
+        os.makedirs(d, exist_ok=True)
+        shutil.rmtree(os.path.join(top, 'w%d' % (_route_worlds - 3)), ignore_errors=True)
+        paths = dict(abs=os.path.join(d, 'data.sql'), link=os.path.join(d, 'same.sql'))
+        if not os.path.islink(paths['link']):
+            os.symlink(paths['abs'], paths['link'])
+        paths['rel'] = os.path.relpath(paths['abs'])
+        self.paths = paths
+        self.write(1)                  # the file holds the first chunk of rows
+        w = World()
+        import xtuml
+        w.loader = xtuml.ModelLoader()
+        w.accepted = []
+        w.rejected = 0
+        w.mms = []
+        w.content = 1
+        for op in hist:
+            self.step(w, op)
+        return w
+
+    def write(self, i):
+        with open(self.paths['abs'], 'w') as f:
+            f.write(self.chunks[i])
+
+    def step(self, w, op):
+        if op[0] == 'write':
+            self.write(op[1])
+            w.content = op[1]
+            return 'ok', 'ok'
+        if op[0] in ('filename_input', 'file_input', 'text_input'):
+            exp = 'ParsingException' if w.content == BAD else 'ok'
+            try:
+                if op[0] == 'filename_input':
+                    w.loader.filename_input(self.paths[op[1]])
+                elif op[0] == 'file_input':
+                    with open(self.paths['abs'], 'r') as f:
+                        w.loader.file_input(f)
+                else:
+                    w.loader.input(self.chunks[w.content])
+                got = 'ok'
+                w.accepted.append(w.content)
+            except Exception as e:
+                got = type(e).__name__
+                w.rejected += 1
+            return got, exp
+        return LoaderModel.step(self, w, op)
+
+    def input_ops(self, w):
+        ops = []
+        for i in range(len(self.chunks)):
+            if i != w.content and not (i == BAD and w.rejected):
+                ops.append(['write', i])
+        if len(w.accepted) < self.max_inputs and not (w.content == BAD and w.rejected):
+            for a in ROUTE_ALIASES:
+                ops.append(['filename_input', a])
+            ops.append(['file_input'])
+            ops.append(['text_input'])
+        if len(w.mms) < self.max_mm:
+            ops.append(['build'])
+        return ops
+
+    def canon(self, w):
+        return json.dumps([w.content, LoaderModel.canon(self, w)])
+
+
+# ---------------------------------------------------------------------------------------------------------------------
+# split family: the schema arrives statement by statement in any order (an association before its classes included),
+# with builds -- also builds that are refused -- in between
+# ---------------------------------------------------------------------------------------------------------------------
+SPLIT_DEPTH = {'quick': 6, 'thorough': 7}
+SPLIT_MUTS = ('delete', 'relate', 'unrelate')
+SPLIT_MAX_REFUSED = 2
+
+
+def split_chunks(p):
+    A, B = p['A'], p['B']
+    return [
+        'CREATE TABLE %s (Id UNIQUE_ID, %s STRING);\nCREATE UNIQUE INDEX I1 ON %s (Id);\n' % (A, p['Name'], A),
+        'CREATE TABLE %s (Id UNIQUE_ID, A_Id UNIQUE_ID, %s INTEGER);\n' % (B, p['N']),
+        'CREATE ROP REF_ID R1 FROM MC %s (A_Id) TO 1C %s (Id);\n' % (B, A),
+        'INSERT INTO %s VALUES (%s, %s);\n' % (A, uid(0x101), q(p['s'][0])) +
+        'INSERT INTO %s VALUES (%s, %s, 1);\n' % (B, uid(0x201), uid(0x101)) +
+        'INSERT INTO %s VALUES (%s, %s, 2);\n' % (B, uid(0x202), uid(0)),
+    ]
+
+
+class SplitModel(LoaderModel):
+    family = 'split'
+    prefix = 'split:'
+    mut_names = SPLIT_MUTS
+
+    def __init__(self, tier, seed=0):
+        LoaderModel.__init__(self, tier, seed, max_mm=2, cap_new=1)
+        self.chunks = split_chunks(self.p)
+
+    bad = None
+
+    def step(self, w, op):
+        got, exp = LoaderModel.step(self, w, op)
+        if op[0] == 'build' and exp != 'ok':
+            w.refused = getattr(w, 'refused', 0) + 1
+        return got, exp
+
+    def input_ops(self, w):
+        ops = [['input', i] for i in range(len(self.chunks)) if i not in w.accepted]
+        if len(w.mms) < self.max_mm and getattr(w, 'refused', 0) < SPLIT_MAX_REFUSED:
+            ops.append(['build'])
+        return ops
+
+    def canon(self, w):
+        # a refused build leaves the reference state alone; it is part of the state so that histories continue after it
+        return json.dumps([getattr(w, 'refused', 0), LoaderModel.canon(self, w)])
+
+
+FAMILY_MODELS = {'routes': RouteModel, 'split': SplitModel}
+
+
 DEPTH = {'quick': 6, 'thorough': 7}
 GEN_DEPTH = {'quick': 4, 'thorough': 5}
 
@@ -578,7 +769,27 @@ def run(ctx):
         r2 = explorer.bfs(ctx, gm, max_depth=GEN_DEPTH[ctx.tier], chunk=8, label=label)
         print('  %s: states=%d depth=%d t=%.0fs' % (label, r2['states'], r2['depth'], ctx.elapsed()), flush=True)
         ctx.count('generator_family_states', r2['states'])
+    # route family and split family
+    before = dict(ctx.counts)
+    for fam, depth in (('routes', ROUTE_DEPTH[ctx.tier]), ('split', SPLIT_DEPTH[ctx.tier])):
+        fm = FAMILY_MODELS[fam](ctx.tier, ctx.seed)
+        r3 = explorer.bfs(ctx, fm, max_depth=depth, chunk=8, label=fam)
+        print('  %s family: states=%d depth=%d closed=%s t=%.0fs' % (fam, r3['states'], r3['depth'], r3['closed'], ctx.elapsed()),
+              flush=True)
+        ctx.count('%s_family_states' % fam, r3['states'])
+        for key in ('builds_compared', 'builds_rejected', 'builds_after_further_input', 'traces'):
+            ctx.count('%s_family_%s' % (fam, key), ctx.n(key) - before.get(key, 0))
+        before = dict(ctx.counts)
+        hs = sorted(r3['seen'].values(), key=lambda h: (len(h), repr(h)))
+        ctx.samples.insert(0, dict(family=fam, history=hs[-1]))
     ctx.caps_hit[:] = [c for c in ctx.caps_hit if 'depth bound' not in c]
+    ctx.require(ctx.n('routes_family_builds_compared') >= 60, 'route family: too few builds compared (%d)' %
+                ctx.n('routes_family_builds_compared'))
+    ctx.require(ctx.n('routes_family_builds_after_further_input') >= 10, 'route family: too few builds after further input')
+    ctx.require(ctx.n('split_family_builds_rejected') >= 20, 'split family: too few refused builds (%d)' %
+                ctx.n('split_family_builds_rejected'))
+    ctx.require(ctx.n('split_family_builds_compared') >= 100, 'split family: too few builds compared (%d)' %
+                ctx.n('split_family_builds_compared'))
     ctx.require(ctx.n('generator_family_states') >= 300, 'generator family: too few states (%d)' % ctx.n('generator_family_states'))
     ctx.require(ctx.n('generator_comparisons') >= 3000, 'too few generator comparisons')
     q = ctx.quick
@@ -593,6 +804,9 @@ def run(ctx):
 
 
 def replay(ctx, case):
+    if case.get('family') in FAMILY_MODELS:
+        m = FAMILY_MODELS[case['family']](case.get('tier', 'quick'), case.get('seed', 0))
+        return explorer.replay_case(ctx, m, case['hist'], case.get('op'))
     m = LoaderModel(case.get('tier', 'quick'), case.get('seed', 0), case.get('max_mm'), case.get('cap_new'), case.get('gens'))
     explorer.replay_case(ctx, m, case['hist'], case.get('op'))
 
@@ -609,7 +823,8 @@ def coverage(ctx):
              'of which at least one was mutated; in every state every enabled input / build / mutation is executed and after it '
              'every live metamodel is compared (non-interference + fresh-loader replica, incl. the id its generator hands '
              'out next); states / transitions include the generator family (same search, every pattern of explicit / default '
-             'id generators over the builds, to its own depth bound)',
+             'id generators over the builds, to its own depth bound), the route family (file-based input routes, file rewritten '
+             'between calls) and the split family (schema statement by statement, refused builds in between)',
         differential_comparisons=ctx.n('differential_comparisons'),
         noninterference_comparisons=ctx.n('noninterference_comparisons'),
         builds_compared=ctx.n('builds_compared'),
@@ -625,6 +840,17 @@ def coverage(ctx):
         generator_family=dict(patterns=gen_patterns(2 if ctx.quick else 3), depth=GEN_DEPTH[ctx.tier],
                               states=ctx.n('generator_family_states'),
                               searches=dict((k, v) for k, v in ctx.notes.items() if k.startswith('generators-'))),
+        route_family=dict(states=ctx.n('routes_family_states'), transitions=ctx.n('routes_family_traces'), depth=ROUTE_DEPTH[ctx.tier],
+                          path_spellings=ROUTE_ALIASES, routes=['filename_input', 'file_input', 'input'],
+                          accepted_inputs_at_most=ROUTE_MAX_INPUTS[ctx.tier], mutations=list(ROUTE_MUTS),
+                          builds_compared=ctx.n('routes_family_builds_compared'),
+                          builds_after_further_input=ctx.n('routes_family_builds_after_further_input'),
+                          search=ctx.notes.get('routes')),
+        split_family=dict(states=ctx.n('split_family_states'), transitions=ctx.n('split_family_traces'), depth=SPLIT_DEPTH[ctx.tier],
+                          chunks=['class A + identifier', 'class B', 'association', 'rows'], mutations=list(SPLIT_MUTS),
+                          refused_builds_per_history_at_most=SPLIT_MAX_REFUSED,
+                          builds_compared=ctx.n('split_family_builds_compared'),
+                          builds_refused=ctx.n('split_family_builds_rejected'), search=ctx.notes.get('split')),
         bounds=dict(depth=DEPTH[ctx.tier], live_metamodels=2 if ctx.quick else 3, chunks=3, rejected_chunk=1,
                     new_per_class_and_metamodel=1 if ctx.quick else 2, palette=ctx.seed % len(PALETTES)),
         exhaustive=not ctx.caps_hit,
